@@ -16,6 +16,7 @@
                            per step; `runP penv H` — the same history on immutable pure values;
     `Inv h env penv`     — run state: `WF h`, all bindings live, `env.map (abs h) = penv`.
 -/
+import LispModel.Proofs.PkgRegLaws
 import LispModel.Proofs.Heap
 namespace LispModel.Props.C02
 open LispModel LispModel.Heap
@@ -204,5 +205,42 @@ example : (runP [] histMap).getD 5 .nil =
 /-- a callee that is a step: `(map (fn [x] (conj x 0)) [[1] [2 3]])` on the heap -/
 example : CallbackOK (fun h v => stepOp goGrow "conj" h (v :: [Val.int 0].map .leaf))
     (fun x => Core.body "conj" (x :: [.int 0])) := builtins_are_callbacks goGrow "conj" [.int 0]
+
+
+/-! ## the `_PACKAGES_` registry (lib/call/call.go, registration time)
+
+`_PACKAGES_` is a lisp value (hash-map of sets) that the host extends whenever it registers a Go function.
+Model: `LispModel/PkgReg.lean` (Go map objects on a heap; program bindings hold object ids). -/
+
+open LispModel.PkgReg in
+/-- a registration changes the value of no binding the program has already made from the registry -/
+theorem registry_registration_frame (st : St) (w : WF st) (pkg fn : String) :
+    observe (registerFixed st pkg fn) = observe st := registerFixed_frame st w pkg fn
+
+open LispModel.PkgReg in
+/-- for every state a program can reach from the empty environment and every further history of registrations
+    and bindings: the bindings that existed keep exactly their values -/
+theorem registry_history_immutable (ops₁ ops₂ : List Op) :
+    let st := run registerFixed {} ops₁
+    (observe (run registerFixed st ops₂)).take st.snaps.length = observe st := reachable_frame ops₁ ops₂
+
+open LispModel.PkgReg in
+/-- what is installed is the old registry with the name added to its package's set -/
+theorem registry_registration_installs (st : St) (w : WF st) (pkg fn : String) :
+    curVal (registerFixed st pkg fn) =
+      .map (ainsert pkg (sinsert fn (oldSet st pkg)) ((oldMap st).map fun e => (e.1, setVal st.heap e.2))) :=
+  registerFixed_installs st w pkg fn
+
+open LispModel.PkgReg in
+/-- the pinned in-place update violated it: `(def s _PACKAGES_)`, one more registration, `s` has changed -/
+theorem baseline_registry_mutation_counterexample :
+    let st := run registerBaseline {} [.reg "main" "f", .snapMap]
+    observe (step registerBaseline st (.reg "main" "g")) ≠ observe st := baseline_changes_a_bound_value
+
+open LispModel.PkgReg in
+example :
+    let st := run registerFixed {} [.reg "main" "f", .snapSet "main", .snapMap]
+    observe (step registerFixed st (.reg "main" "g")) = observe st ∧
+    observe st = [.set ["f"], .map [("main", ["f"])]] := by decide
 
 end LispModel.Props.C02
